@@ -122,7 +122,7 @@ class Check:
                 if k is None:
                     feats = sorted({axis_feature(a[i]) for i in range(hist.n)} - {'generic'})
                     return 'history-has:' + (','.join(feats) if feats else 'none')
-                exact = (noise_free and not (hist.fault_mask[k] & (1 | 2 | 8))    # scale, dup and kick keep the images consistent
+                exact = (noise_free and not (hist.fault_mask_am[k] & (1 | 2 | 8))    # scale, dup and kick keep the images consistent
                          and k not in hist.fixed_rows.get(t.key, ()))
                 return f"acc:{axis_feature(a[k])}|mag:{zero_feature(m[k])}|{'exact' if exact else 'perturbed'}"
             if k is None:
